@@ -37,7 +37,26 @@ func zzResetFlags() {
 	tags = []string{"json", "yaml", "mapstructure"}
 }
 
+const (
+	zzBadDefs  = `{"$id": "https://example.com/bad", "type": "object", "definitions": {"A": {"type": "string"}, "B": {"type": 7}}}`
+	zzBadDefs2 = `{"$id": "https://example.com/bad", "type": "object", "$defs": {"A": {"required": "sku"}}}`
+	zzBadProps = `{"$id": "https://example.com/bad", "type": "object", "properties": {"p": {"properties": []}}}`
+	zzBadItems = `{"$id": "https://example.com/bad", "type": "object", "properties": {"p": {"type": "array", "items": {"minLength": "3"}}}}`
+)
+
+// zzDirs: the same schema directory at different places; the place must not matter (C12).
+var zzDirs = []string{zzIn, "/tmp/zzvfs/in#42/schemas", "/tmp/zzvfs/what?/in", "/tmp/zzvfs/a b/in.d"}
+
+func zzFilesAt(dir string) {
+	zzvrt.VFileData(dir+"/widget.json", zzWidget)
+	zzvrt.VFileData(dir+"/gadget.json", zzGadget)
+}
+
 func zzFiles() {
+	zzvrt.VFileData(zzIn+"/baddefs.json", zzBadDefs)
+	zzvrt.VFileData(zzIn+"/baddefs2.json", zzBadDefs2)
+	zzvrt.VFileData(zzIn+"/badprops.json", zzBadProps)
+	zzvrt.VFileData(zzIn+"/baditems.json", zzBadItems)
 	zzvrt.VFileData(zzIn+"/widget.json", zzWidget)
 	zzvrt.VFileData(zzIn+"/gadget.json", zzGadget)
 	zzvrt.VFileData(zzIn+"/badtype.json", zzBadType)
@@ -53,6 +72,9 @@ func HarnessCLIDeterminism() {
 	zzResetFlags()
 	zzFiles()
 	defaultPackage = "gen"
+	// where the schema directory lives is not part of the class: all places must agree
+	zzIn := zzDirs[zzvrt.Choice(len(zzDirs))]
+	zzFilesAt(zzIn)
 	args := []string{zzIn + "/widget.json"}
 	sc := zzvrt.Choice(zzvrt.Param("SCENARIOS", 7))
 	switch sc {
@@ -123,8 +145,10 @@ func HarnessCLIFailures() {
 		}
 	default:
 		// one bad input file, before or after a good one
-		bads := []string{"/missing.json", "/malformed.json", "/badtype.json", "/badref.json", "/badfileref.json"}
-		names := []string{"missing-file", "unparsable-file", "unknown-type", "ref-to-missing-definition", "ref-to-missing-file"}
+		bads := []string{"/missing.json", "/malformed.json", "/badtype.json", "/badref.json", "/badfileref.json",
+			"/baddefs.json", "/baddefs2.json", "/badprops.json", "/baditems.json"}
+		names := []string{"missing-file", "unparsable-file", "unknown-type", "ref-to-missing-definition", "ref-to-missing-file",
+			"wrongly-typed-keyword-in-definitions", "wrongly-typed-keyword-in-$defs", "wrongly-typed-keyword-in-a-property", "wrongly-typed-keyword-in-items"}
 		k := zzvrt.Choice(len(bads))
 		fault = names[k]
 		switch zzvrt.Choice(3) {
